@@ -35,6 +35,13 @@ def plan(tier, seed):
         P("alg%d-rec-8x134-p2" % alg, alg, 8, 198, 2, 2, cfg="tinyple", to=1800)
         P("alg%d-rec-8x134-p1" % alg, alg, 8, 134, 1, 1, cfg="tinyple", to=1800)
         P("alg%d-rec-rankdef-8x198" % alg, alg, 8, 198, 2, 2, rsym=5, conck=False, cfg="tinyple", to=1800)
+    # trailing zero rows (truncation before factoring; recursive fix-up of P must not run past the truncated rows)
+    for alg in (2, 3):
+        for cfg in ("ts", "tinyple"):
+            P("alg%d-ztail-10x198-%s" % (alg, cfg), alg, 10, 198, 2, 2, rsym=6, cfg=cfg, to=1800)
+            qs[-1].defs.update({"ZTAIL": 3}); qs[-1].layout.update({"ZTAIL": 3})
+        P("alg%d-gapword-8x198" % alg, alg, 8, 198, 2, 7)
+        qs[-1].defs.update({"GAPAT": 3, "GAPLEN": 61}); qs[-1].layout.update({"GAPAT": 3, "GAPLEN": 61})
     if T:
         for s in (1, 2):
             for alg in (2, 3, 4):
